@@ -107,8 +107,11 @@ Definition paa_obs (now : Z) (idp_sub : option bytes) (tok : jws) : bytes :=
     | Some s, JCompact _ _ c => if bytes_eqb (cl_at c) at_ then Some s else None
     | _, _ => None
     end in
+  (* "consulted" as the harness can observe it is a request arriving at the provider; the OAuth2 client
+     refuses to send an empty access token, so for such a token no request is seen *)
+  let at_empty := match tok with JCompact _ _ c => match cl_at c with [] => true | _ => false end | _ => false end in
   match check_paa [x53] now idp tok with
-  | (PaaReject, q) => str "rej:" ++ b01 q
+  | (PaaReject, q) => str "rej:" ++ b01 (q && negb at_empty)
   | (PaaAccept h i u, q) => str "acc:" ++ hexs h ++ colon ++ hexs i ++ colon ++ hexs u ++ colon ++ b01 q
   end.
 
